@@ -8,6 +8,12 @@ outer ring present and EVERY subset of the inner cells removed (holes); Cartesia
 window, also shifted to negative indices.  Labels have different widths.  A map is either refused (ValueError) or
 drawn as text that reads back to exactly the contents ('never drawn incompletely').
 Maps whose OUTER ring is incomplete read back shifted: known finding F18, see pending/C18_lattice_finding.py.
+
+Text map -> grid contents (last section): the real GridBlueprint._readGridContentsLattice (with geometry.SymmetryType /
+GeomType.fromStr, asciimaps.asciiMapFromGeomAndDomain, AsciiMapCartesian.readAscii, _getGridSize) is executed on
+concrete Cartesian texts with rows of UNEQUAL length (diamond, steps, one wide row, holes; odd and even widths; full
+and quarter core): every token is indexed by its text position counted from the middle of the map (widest row, number
+of rows), not from the length of any particular row.
 """
 from spec import *
 
@@ -90,3 +96,66 @@ def cartesian_map_reads_back_or_is_refused(mask: int, shift: int):
         assert back == contents, "full window, centre hole, single cell, one row, one column, the two diagonals: drawn"
     if shift == 1 and mask % 2 == 1:
         assert back is None, "negative indices have no text slot: refused, not dropped"
+
+
+# ---------------------------------------------------------------------------------------------- text map -> grid contents
+# GridBlueprint._readGridContentsLattice on concrete Cartesian texts whose rows have unequal length.  The expected index
+# of a token comes from the text alone: (column, row from the bottom); full core: minus (nx // 2, ny // 2), nx = the
+# widest row (placeholders counted), ny = the number of rows ("(0,0) in the middle ... for even and odd cases").
+CART_TEXTS = [
+    "A B C\nD E F\nG H I",  # rectangle, odd
+    "- - N1\n- N2 F1 N3\nW1 F2 CC F3 E1\n- S1 F4 S2\n- - S3",  # diamond, trailing placeholders left off
+    "- T1\nL1 M1 M2 R1\nL2 M3 M4 R2",  # even width, narrow top row
+    "A\nB C D E\nF",  # one wide row in the middle
+    "A B C D\nE F\nG",  # steps narrowing to the bottom
+    "A\nB C\nD E F G H I",  # steps narrowing to the top, even width
+    "- A\nB C D\n- E - -",  # holes, placeholders written out in one row
+    "A B",  # a single row
+]
+
+
+class GridDesign:
+    """The attributes of a GridBlueprint that _readGridContentsLattice uses (GridBlueprint itself is a yamlize.Object,
+    whose attribute machinery is outside the engine); the REAL method body is executed on it."""
+
+    geom = None
+    symmetry = None
+    latticeMap = None
+    gridContents = None
+    readFromLatticeMap = False
+
+
+def expected_from_text(text, full):
+    rows = [ln.split() for ln in text.strip().splitlines()]
+    nx = max([len(r) for r in rows])
+    ny = len(rows)
+    out = {}
+    for r in range(ny):
+        row = rows[ny - 1 - r]
+        for c in range(len(row)):
+            if row[c] != "-":
+                if full:
+                    out[(c - nx // 2, r - ny // 2)] = row[c]
+                else:
+                    out[(c, r)] = row[c]
+    return out
+
+
+@lemma(gen={"t": (0, 7), "full": (0, 1)})
+def cartesian_text_map_is_indexed_from_the_middle_of_its_widest_row(t: int, full: int):
+    t = choose(t, 0, 7)
+    full = choose(full, 0, 1)
+    text = CART_TEXTS[t]
+    bp = new(GridDesign, geom="cartesian", symmetry=("full" if full == 1 else "quarter reflective"), latticeMap=text, gridContents=None)
+    gridBp.GridBlueprint._readGridContentsLattice(bp)
+    got = {(k[0], k[1]): v for k, v in bp.gridContents.items()}
+    assert got == expected_from_text(text, full == 1), "every token sits at its text position counted from the middle of the map"
+    if full == 1 and t == 1:
+        assert got[(0, 0)] == "CC", "the label in the middle of the widest row of an odd map is (0,0)"
+
+
+@lemma(gen={"a": (-5, 5), "b": (-5, 5), "c": (-5, 5), "d": (-5, 5), "e": (-5, 5), "f": (-5, 5)})
+def grid_size_is_the_extent_of_all_indices(a: int, b: int, c: int, d: int, e: int, f: int):
+    nx, ny = gridBp._getGridSize([(a, b), (c, d), (e, f)])
+    assert nx == max(a, c, e) - min(a, c, e) + 1 and ny == max(b, d, f) - min(b, d, f) + 1
+    assert nx >= 1 and ny >= 1
